@@ -570,6 +570,18 @@ def spell_number(x, rng, tags=None):
     neg, digits, exp = _dec_parts(x)
     # move the decimal point / exponent around, value preserved exactly
     style = rng.choice(("plain", "exp", "exp+", "EXP", "shift-up", "shift-down", "frac-zeros", "point"))
+    if rng.random() < 0.01 and digits != "0":
+        # hundreds of zeros between the decimal point and the digits, undone by the exponent (and the mirror image: hundreds of
+        # trailing zeros with a negative exponent): length of the literal is no measure of its value
+        k = rng.choice((300, 800, 1100))
+        if rng.random() < 0.5:
+            e2 = exp + k + len(digits)
+            text = ("-" if neg else "") + "0." + "0" * k + digits + rng.choice("eE") + (rng.choice(("", "+")) if e2 >= 0 else "") + str(e2)
+        else:
+            text = ("-" if neg else "") + digits + "0" * k + rng.choice("eE") + str(exp - k)
+        tags is not None and tags.add("num-long-zeros")
+        val = Fraction(text)
+        return text, float(val)
     sign = "-" if neg else ""
     if isinstance(x, float) and neg and digits == "0":
         sign = "-"
